@@ -32,7 +32,7 @@ pub struct Lang {
 
 const C_CODE: &[&str] = &["int a{n} = {n};", "void f{n}(void);", "typedef int t{n};", "struct s{n} { int x; };"];
 const C_INLINE: &[&str] = &["int b{n} = {n};", "char c{n};"];
-const C_DECOY: &[&str] = &["const char *d{n} = \"{}\";"];
+const C_DECOY: &[&str] = &["const char *d{n} = \"{}\";", "const char *e{n} = \"/* {} */\";", "const char *f{n} = \"// {}\";"];
 
 pub const LANGS: &[Lang] = &[
     Lang {
@@ -44,7 +44,7 @@ pub const LANGS: &[Lang] = &[
         trailing_line: true,
         code: &["echo hello{n}", "x{n}=1", "ls -la | wc -l", "f{n}() { echo hi; }"],
         inline_code: &[],
-        decoys: &["echo \"{}\"", "y{n}='{}'"],
+        decoys: &["echo \"{}\"", "y{n}='{}'", "cat <<EOF{n}\n# {}\nEOF{n}"],
         header: "#!/bin/sh\n",
         footer: "",
         markdown: false,
@@ -76,7 +76,7 @@ pub const LANGS: &[Lang] = &[
         trailing_line: false,
         code: &["a{n} { color: red; }", ".b{n} { margin: 0; }", "#c{n} > p { padding: 1px 2px; }"],
         inline_code: &[".i{n} { top: 0; }"],
-        decoys: &["q{n}::before { content: \"{}\"; }"],
+        decoys: &["q{n}::before { content: \"{}\"; }", "r{n}::after { content: \"/* {} */\"; }"],
         header: "",
         footer: "",
         markdown: false,
@@ -91,7 +91,7 @@ pub const LANGS: &[Lang] = &[
         trailing_line: true,
         code: &["var a{n} = {n}", "func f{n}() {}", "const c{n} = 2", "type T{n} struct{ X int }"],
         inline_code: &["var b{n} = 1"],
-        decoys: &["var d{n} = \"{}\"", "var r{n} = `{}`"],
+        decoys: &["var d{n} = \"{}\"", "var r{n} = `{}`", "var m{n} = `\n// {}\n`", "var c{n} = \"/* {} */\""],
         header: "package main\n",
         footer: "",
         markdown: false,
@@ -136,7 +136,7 @@ pub const LANGS: &[Lang] = &[
         trailing_line: true,
         code: &["class A{n} { int x = {n}; }", "interface I{n} { }", "enum E{n} { X, Y }"],
         inline_code: &["class B{n} { }"],
-        decoys: &["class D{n} { String s = \"{}\"; }"],
+        decoys: &["class D{n} { String s = \"{}\"; }", "class T{n} { String s = \"// {}\"; }", "class U{n} { String s = \"/* {} */\"; }"],
         header: "import java.util.List;\n",
         footer: "",
         markdown: false,
@@ -151,7 +151,7 @@ pub const LANGS: &[Lang] = &[
         trailing_line: true,
         code: &["let a{n} = {n};", "function f{n}() { return 1; }", "const o{n} = { k: 1 };", "class K{n} { m() { return 2; } }"],
         inline_code: &["let b{n} = 2;"],
-        decoys: &["const d{n} = \"{}\";", "const t{n} = `{}`;", "const q{n} = '{}';"],
+        decoys: &["const d{n} = \"{}\";", "const t{n} = `{}`;", "const q{n} = '{}';", "const m{n} = `\n// {}\n/* {} */\n`;", "const c{n} = \"// {}\";"],
         header: "",
         footer: "",
         markdown: false,
@@ -166,7 +166,7 @@ pub const LANGS: &[Lang] = &[
         trailing_line: true,
         code: &["val a{n} = {n}", "fun f{n}() { }", "class K{n}", "object O{n} { val x = 1 }"],
         inline_code: &["val b{n} = 2"],
-        decoys: &["val d{n} = \"{}\""],
+        decoys: &["val d{n} = \"{}\"", "val c{n} = \"// {}\""],
         header: "package demo\n",
         footer: "",
         markdown: false,
@@ -196,7 +196,7 @@ pub const LANGS: &[Lang] = &[
         trailing_line: false,
         code: &["Paragraph {n} of text.", "## Heading {n}", "- item {n}\n- item two", "> quote {n}", "1. first {n}"],
         inline_code: &[],
-        decoys: &["```\n{}\n```", "Inline `{}` code span {n}.", "    {}", "Text with inline <b>{n}</b> html and {} in a paragraph."],
+        decoys: &["```\n{}\n```", "Inline `{}` code span {n}.", "    {}", "Text with inline <b>{n}</b> html and {} in a paragraph.", "```html\n<!-- {} -->\n```", "Inline `<!-- {} -->` span.", "```\n[//]: # ({})\n```"],
         header: "# Title\n\n",
         footer: "",
         markdown: true,
@@ -211,7 +211,7 @@ pub const LANGS: &[Lang] = &[
         trailing_line: true,
         code: &["$a{n} = {n};", "function f{n}() { return 1; }", "class K{n} { public $x = 1; }", "echo 'x{n}';"],
         inline_code: &["$b{n} = 2;"],
-        decoys: &["$d{n} = '{}';", "$e{n} = \"{}\";"],
+        decoys: &["$d{n} = '{}';", "$e{n} = \"{}\";", "$c{n} = '// {}';", "$h{n} = '# {}';", "?>\n<p>{}</p><!-- {} -->\n<?php"],
         header: "<?php\n",
         footer: "",
         markdown: false,
@@ -226,7 +226,7 @@ pub const LANGS: &[Lang] = &[
         trailing_line: true,
         code: &["a{n} = {n}", "def f{n}(): pass", "import os", "class K{n}: pass"],
         inline_code: &[],
-        decoys: &["d{n} = \"{}\"", "e{n} = '{}'", "t{n} = \"\"\"{}\"\"\""],
+        decoys: &["d{n} = \"{}\"", "e{n} = '{}'", "t{n} = \"\"\"{}\"\"\"", "c{n} = \"# {}\"", "m{n} = \"\"\"\n# {}\n\"\"\""],
         header: "",
         footer: "",
         markdown: false,
@@ -241,7 +241,7 @@ pub const LANGS: &[Lang] = &[
         trailing_line: true,
         code: &["a{n} = {n}", "def f{n}; end", "puts \"x{n}\"", "class K{n}; end"],
         inline_code: &[],
-        decoys: &["d{n} = \"{}\"", "e{n} = '{}'"],
+        decoys: &["d{n} = \"{}\"", "e{n} = '{}'", "c{n} = \"# {}\"", "h{n} = <<~EOS\n  # {}\nEOS"],
         header: "",
         footer: "",
         markdown: false,
@@ -256,7 +256,7 @@ pub const LANGS: &[Lang] = &[
         trailing_line: true,
         code: &["fn f{n}() {}", "const A{n}: u32 = {n};", "struct S{n};", "use std::fmt as f{n};"],
         inline_code: &["const B{n}: u8 = 1;"],
-        decoys: &["const D{n}: &str = \"{}\";", "const R{n}: &str = r#\"{}\"#;"],
+        decoys: &["const D{n}: &str = \"{}\";", "const R{n}: &str = r#\"{}\"#;", "const C{n}: &str = \"// {}\";", "const M{n}: &str = \"/* {} */\";", "const L{n}: &str = \"line\n// {}\n\";"],
         header: "",
         footer: "",
         markdown: false,
@@ -271,7 +271,7 @@ pub const LANGS: &[Lang] = &[
         trailing_line: true,
         code: &["SELECT {n};", "CREATE TABLE t{n} (id INT);", "INSERT INTO t{n} (id) VALUES ({n});"],
         inline_code: &["SELECT 2;"],
-        decoys: &["SELECT '{}';"],
+        decoys: &["SELECT '{}';", "SELECT '-- {}';", "SELECT '/* {} */';"],
         header: "",
         footer: "",
         markdown: false,
@@ -286,7 +286,7 @@ pub const LANGS: &[Lang] = &[
         trailing_line: true,
         code: &["let a{n} = {n}", "func f{n}() { }", "struct S{n} { }", "class K{n} { var x = 1 }"],
         inline_code: &["let b{n} = 2"],
-        decoys: &["let d{n} = \"{}\""],
+        decoys: &["let d{n} = \"{}\"", "let c{n} = \"// {}\"", "let m{n} = \"\"\"\n// {}\n\"\"\""],
         header: "import Foundation\n",
         footer: "",
         markdown: false,
@@ -301,7 +301,7 @@ pub const LANGS: &[Lang] = &[
         trailing_line: true,
         code: &["a{n} = {n}", "b{n} = \"x\"", "c{n} = [1, 2]", "d{n} = true"],
         inline_code: &[],
-        decoys: &["s{n} = \"{}\"", "l{n} = '{}'"],
+        decoys: &["s{n} = \"{}\"", "l{n} = '{}'", "c{n} = \"# {}\"", "m{n} = \"\"\"\n# {}\n\"\"\""],
         header: "",
         footer: "",
         markdown: false,
@@ -316,7 +316,7 @@ pub const LANGS: &[Lang] = &[
         trailing_line: true,
         code: &["let a{n}: number = {n};", "function f{n}(): void { }", "interface I{n} { x: number }", "declare const c{n}: string;", "type T{n} = { k: string };"],
         inline_code: &["let b{n} = 2;"],
-        decoys: &["const d{n}: string = \"{}\";", "const t{n} = `{}`;"],
+        decoys: &["const d{n}: string = \"{}\";", "const t{n} = `{}`;", "const c{n} = \"// {}\";", "const m{n} = `\n/* {} */\n`;"],
         header: "",
         footer: "",
         markdown: false,
@@ -346,7 +346,7 @@ pub const LANGS: &[Lang] = &[
         trailing_line: false,
         code: &["<item a=\"{n}\">text</item>", "<empty{n}/>", "<group><child>c{n}</child></group>"],
         inline_code: &["<i{n}>v</i{n}>"],
-        decoys: &["<block name=\"decoy{n}\">x</block><![CDATA[ {} ]]>", "<t{n}><![CDATA[{}]]></t{n}>"],
+        decoys: &["<block name=\"decoy{n}\">x</block><![CDATA[ {} ]]>", "<t{n}><![CDATA[{}]]></t{n}>", "<u{n}><![CDATA[<!-- {} -->]]></u{n}>"],
         header: "<?xml version=\"1.0\"?>\n<root>\n",
         footer: "</root>\n",
         markdown: false,
@@ -361,7 +361,7 @@ pub const LANGS: &[Lang] = &[
         trailing_line: true,
         code: &["k{n}: v{n}", "l{n}:\n  - a\n  - b", "m{n}:\n  x: 1"],
         inline_code: &[],
-        decoys: &["s{n}: \"{}\"", "q{n}: '{}'"],
+        decoys: &["s{n}: \"{}\"", "q{n}: '{}'", "c{n}: \"# {}\"", "b{n}: |\n  # {}\n  text\nz{n}: 1"],
         header: "",
         footer: "",
         markdown: false,
